@@ -28,6 +28,10 @@ pub enum Teardown {
     Drop,
     /// the listener side (a sender) closes after its sends
     PeerClosesFirst,
+    /// non-closing detach carrying an error
+    DetachWithError,
+    /// detach() under the library's own time-out wrapper (ample time)
+    DetachWithTimeout,
 }
 
 #[derive(Clone, Copy, Debug, PartialEq)]
@@ -35,6 +39,8 @@ pub enum SessTeardown {
     End,
     EndWithError,
     Drop,
+    /// try_end() polled until it yields the result: every poll repeats the end request
+    TryEnd,
 }
 
 #[derive(Clone, Debug)]
@@ -143,7 +149,7 @@ async fn listener_link(ep: LinkEndpoint, gens: Rc<RefCell<BTreeMap<String, u64>>
                 rec.error_seen = Some(format!("{:?}", e));
                 // the application's next operation on the link answers the peer in kind
                 let es = format!("{:?}", e);
-                if es.contains("DetachedByRemote") {
+                if es.contains("DetachedByRemote") || es.contains("RemoteDetachedWithError") {
                     rec.result = format!("{:?}", s.detach().await.map(|_| ()).map_err(|(_, e)| e));
                 } else {
                     rec.result = format!("{:?}", s.close().await);
@@ -167,6 +173,7 @@ async fn listener_link(ep: LinkEndpoint, gens: Rc<RefCell<BTreeMap<String, u64>>
         }
     }
     rec.completed = true;
+    crate::trace!("LISTENER-LINK {} gen {} done: error_seen={:?} result={}", rec.name, rec.gen, rec.error_seen, rec.result);
     records.borrow_mut().push(rec);
 }
 
@@ -262,6 +269,25 @@ async fn client_link(
                 }
                 None => return,
             },
+            Teardown::DetachWithError => match sim::op(&format!("detach_with_error {}", life.name), s.detach_with_error(local_error())).await {
+                Some(r) => {
+                    rec.result = format!("{:?}", r.as_ref().map(|_| ()).map_err(|(_, e)| format!("{:?}", e)));
+                    if r.is_ok() {
+                        check_peer_detached("detach_with_error()");
+                    }
+                }
+                None => return,
+            },
+            Teardown::DetachWithTimeout => match sim::op(&format!("detach_with_timeout {}", life.name), s.detach_with_timeout(std::time::Duration::from_secs(400))).await {
+                Some(Ok(r)) => {
+                    rec.result = format!("{:?}", r.as_ref().map(|_| ()).map_err(|(_, e)| format!("{:?}", e)));
+                    if r.is_ok() {
+                        check_peer_detached("detach_with_timeout()");
+                    }
+                }
+                Some(Err(_)) => rec.result = "Elapsed".into(),
+                None => return,
+            },
             Teardown::Drop => {
                 drop(s);
                 rec.result = "dropped".into();
@@ -322,6 +348,25 @@ async fn client_link(
                 }
                 None => return,
             },
+            Teardown::DetachWithError => match sim::op(&format!("detach_with_error {}", life.name), r.detach_with_error(local_error())).await {
+                Some(res) => {
+                    rec.result = format!("{:?}", res.as_ref().map(|_| ()).map_err(|(_, e)| format!("{:?}", e)));
+                    if res.is_ok() {
+                        check_peer_detached("detach_with_error()");
+                    }
+                }
+                None => return,
+            },
+            Teardown::DetachWithTimeout => match sim::op(&format!("detach_with_timeout {}", life.name), r.detach_with_timeout(std::time::Duration::from_secs(400))).await {
+                Some(Ok(res)) => {
+                    rec.result = format!("{:?}", res.as_ref().map(|_| ()).map_err(|(_, e)| format!("{:?}", e)));
+                    if res.is_ok() {
+                        check_peer_detached("detach_with_timeout()");
+                    }
+                }
+                Some(Err(_)) => rec.result = "Elapsed".into(),
+                None => return,
+            },
             Teardown::Drop => {
                 drop(r);
                 rec.result = "dropped".into();
@@ -372,7 +417,7 @@ fn draw_session(si: usize) -> SessPlan {
         let teardown = if peer_first {
             Teardown::PeerClosesFirst
         } else {
-            pick(&[Teardown::Close, Teardown::Close, Teardown::Detach, Teardown::CloseWithError, Teardown::Drop])
+            pick(&[Teardown::Close, Teardown::Close, Teardown::Detach, Teardown::CloseWithError, Teardown::Drop, Teardown::DetachWithError, Teardown::DetachWithTimeout])
         };
         lives.push(Life {
             name,
@@ -388,7 +433,7 @@ fn draw_session(si: usize) -> SessPlan {
     }
     SessPlan {
         lives,
-        teardown: pick(&[SessTeardown::End, SessTeardown::End, SessTeardown::EndWithError, SessTeardown::Drop]),
+        teardown: pick(&[SessTeardown::End, SessTeardown::End, SessTeardown::EndWithError, SessTeardown::Drop, SessTeardown::TryEnd]),
     }
 }
 
@@ -501,6 +546,29 @@ async fn client_session(
             let e = definitions::Error::new(AmqpError::InternalError, Some("local-session-error".to_string()), None);
             match sim::op("session end_with_error", sess.end_with_error(e)).await {
                 Some(r) => format!("end_with_error: {:?}", r),
+                None => return,
+            }
+        }
+        SessTeardown::TryEnd => {
+            use fe2o3_amqp::session::TryEndError;
+            let gap = pick(&[1u64, 7, 50]);
+            let poll = async {
+                loop {
+                    match sess.try_end() {
+                        Ok(r) => return Some(r),
+                        Err(TryEndError::RemoteEndNotReceived) => sim::sleep_ms(gap).await,
+                        Err(TryEndError::AlreadyEnded) => return None,
+                    }
+                }
+            };
+            match sim::op("session try_end polled", poll).await {
+                Some(Some(r)) => {
+                    if !sess.is_ended() {
+                        sim::violation("not-ended-after-end", "try_end() returned the result of the end and is_ended() is false".into());
+                    }
+                    format!("end: {:?}", r)
+                }
+                Some(None) => "end: AlreadyEnded".to_string(),
                 None => return,
             }
         }
@@ -715,7 +783,7 @@ pub async fn run(judge: Judge, models: Models) {
                 }
             };
             match teardown {
-                Teardown::Close | Teardown::Detach | Teardown::CloseWithError => {
+                Teardown::Close | Teardown::Detach | Teardown::CloseWithError | Teardown::DetachWithError | Teardown::DetachWithTimeout => {
                     if !c.result.starts_with("Ok") {
                         sim::violation("link-teardown-result", format!("{:?} of {} generation {} returned {}", teardown, name, gen, c.result));
                         return;
@@ -736,7 +804,7 @@ pub async fn run(judge: Judge, models: Models) {
                 Teardown::Drop => {}
             }
             // the error a local close carried is what the peer's application gets
-            if *teardown == Teardown::CloseWithError {
+            if matches!(teardown, Teardown::CloseWithError | Teardown::DetachWithError) {
                 if let Some(l) = l {
                     let e = l.error_seen.clone().unwrap_or_default();
                     if !e.contains("local-link-error") {
